@@ -25,11 +25,11 @@ def prog(k: int, n1: int, oc1: bool, qd1: bool, pr1: int, kw1: bool, n2: int, oc
     D.run('C04', ops, wc, OPS, False, copied=copied)
 
 
-def dynctx(inb: bool, v: int, w: int, nested: bool) -> None:
+def dynctx(inb: bool, v: int, w: int, nested: bool, ur: int = 0) -> None:
     """`with p.param.update(...)` restores the previous values also when a previous value is a dynamic generator or a link."""
     import param
     from param.parameterized import batch_call_watchers
-    from sx.api import check, untraced, pickbool
+    from sx.api import check, untraced, pickbool, pick
 
     class Src(param.Parameterized):
         v = param.Integer(default=1)
@@ -47,7 +47,10 @@ def dynctx(inb: bool, v: int, w: int, nested: bool) -> None:
     if inb:
         cm = batch_call_watchers(q)
         cm.__enter__()
-    with q.param.update(n=v, x=w, y=v):
+    ur = pick(ur, 0, 2)          # keywords / a dict / an iterable of (name, value) pairs
+    ctx = q.param.update(n=v, x=w, y=v) if ur == 0 else (q.param.update({'n': v, 'x': w, 'y': v}) if ur == 1
+                                                          else q.param.update([('n', v), ('x', w), ('y', v)]))
+    with ctx:
         if nested:
             with q.param.update(n=w):
                 pass
@@ -64,6 +67,9 @@ def dynctx(inb: bool, v: int, w: int, nested: bool) -> None:
     check('C04.values', q.param.get_value_generator('n') is gen, dict(info, what='trigger on a dynamic value'))
     s.v = 11
     check('C04.values', q.x == 11, dict(info, what='trigger on a linked parameter'))
+
+
+dynctx.ranges = lambda consts: dict(ur=(0, 2))
 
 
 def _ranges(consts):
